@@ -11,14 +11,14 @@ Open Scope Z_scope.
 
 (** where a goroutine is, as the harness can see it *)
 Inductive pos :=
-| AtDecision | AtLoad | AtIssue
+| AtDecision | AtLoad | AtIssue | AtExists
 | WaitLoad | WaitObtain | WaitRenew
 | DoneCert (g : nat) | DoneEmpty | DoneErr | Exited
 | Running.     (* never observed at quiescence *)
 
 Definition pos_eqb (a b : pos) : bool :=
   match a, b with
-  | AtDecision, AtDecision | AtLoad, AtLoad | AtIssue, AtIssue
+  | AtDecision, AtDecision | AtLoad, AtLoad | AtIssue, AtIssue | AtExists, AtExists
   | WaitLoad, WaitLoad | WaitObtain, WaitObtain | WaitRenew, WaitRenew
   | DoneEmpty, DoneEmpty | DoneErr, DoneErr | Exited, Exited | Running, Running => true
   | DoneCert g, DoneCert h => Nat.eqb g h
@@ -30,6 +30,7 @@ Definition pos_of (s : state) (th : thread) : pos :=
   | PGate1 _ | PGate2 _ | PRenGate _ _ _ _ => AtDecision
   | PLoad | PObtLoad _ | PRenLoad _ _ _ _ | PRenReload _ _ _ => AtLoad
   | PRenIssue _ _ _ _ => AtIssue
+  | PMaint _ => if at_gate s th then AtExists else Running
   | PObtain _ _ => if at_gate s th then AtIssue else Running
   | PLoadWait _ _ => WaitLoad
   | PObtWait _ _ => WaitObtain
@@ -42,14 +43,15 @@ Definition pos_of (s : state) (th : thread) : pos :=
   end.
 
 Definition is_wait (p : pos) : bool := match p with WaitLoad | WaitObtain | WaitRenew => true | _ => false end.
-Definition is_gate (p : pos) : bool := match p with AtDecision | AtLoad | AtIssue => true | _ => false end.
+Definition is_gate (p : pos) : bool := match p with AtDecision | AtLoad | AtIssue | AtExists => true | _ => false end.
 Definition is_done (p : pos) : bool :=
   match p with DoneCert _ | DoneEmpty | DoneErr | Exited => true | _ => false end.
 
 (** one macro step of the harness and what it saw afterwards *)
 Inductive mlabel :=
 | MArrive (t : tid) (n : name)
-| MRelease (t : tid) (a : act).
+| MRelease (t : tid) (a : act)
+| MSetCert (n : name) (c : cert).     (* the harness changes the state of a cached certificate (revokes it) *)
 
 Record seen := Seen {
   s_pos : list (tid * name * pos);   (* every goroutine so far *)
@@ -63,6 +65,7 @@ Definition apply_label (s : state) (l : mlabel) : option state :=
   match l with
   | MArrive t n => step s (LArrive t n)
   | MRelease t a => step s (LThread t a)
+  | MSetCert n c => step s (LCacheSet n c)
   end.
 
 Definition names_in (m : name -> option chan) (names : list name) : list name :=
@@ -135,7 +138,7 @@ Definition label_is_bad (l : mlabel) : bool :=
   end.
 
 (** the goroutine a label acts on *)
-Definition label_tid (l : mlabel) : tid := match l with MArrive t _ | MRelease t _ => t end.
+Definition label_tid (l : mlabel) : tid := match l with MArrive t _ | MRelease t _ => t | MSetCert _ _ => O end.
 Definition name_of (o : seen) (t : tid) : option name :=
   match find (fun x => Nat.eqb (fst (fst x)) t) (s_pos o) with Some x => Some (snd (fst x)) | None => None end.
 
@@ -144,7 +147,7 @@ Definition name_of (o : seen) (t : tid) : option name :=
     waiting: has an attempt for the scenario's name been denied / failed / been cancelled since it was
     first seen waiting *)
 Fixpoint run_ok (sc : scen) (names : list name) (bad_before : bool) (arrived waited : list tid)
-                (wflag : list (tid * bool)) (ms : list mstep) : bool :=
+                (wflag : list (tid * bool)) (issued : list name) (ms : list mstep) : bool :=
   match ms with
   | [] => true
   | m :: r =>
@@ -157,17 +160,29 @@ Fixpoint run_ok (sc : scen) (names : list name) (bad_before : bool) (arrived wai
       let waited' := now_waiting ++ waited in
       let wflag1 := map (fun tb => (fst tb, snd tb || bad_here)) wflag in
       let wflag' := map (fun t => (t, false)) (filter (fun t => negb (mem_nat t (map fst wflag1))) now_waiting) ++ wflag1 in
+      (* names for which the issuer has delivered a certificate that has not been revoked since *)
+      let issued' :=
+        match m_label m with
+        | MRelease t (AIssue OOk) => match name_of o t with Some n => n :: issued | None => issued end
+        | MSetCert n _ => filter (fun x => negb (Nat.eqb x n)) issued
+        | _ => issued
+        end in
       point_ok names o &&
+      (* at most one performs the work, the issuer is asked once per renewal: once it has delivered
+         for a name, nobody is at the issuer for that name again (the certificate in storage is not
+         due: renewCert re-checks under its lock) until that certificate is revoked in turn *)
+      forallb (fun x => match snd x with AtIssue => negb (mem_nat (snd (fst x)) issued') | _ => true end) (s_pos o) &&
       (* the others wait for the worker and then use what it left: a goroutine that has waited
          never goes to storage or to the issuer itself afterwards (it re-enters with loading off) *)
       forallb (fun x => negb (mem_nat (fst (fst x)) waited) ||
                         match snd x with AtLoad | AtIssue => false | _ => true end) (s_pos o) &&
       (* while an unexpired certificate is being renewed and nothing has been denied or failed:
          every handshake for the name has been answered with a certificate by the time things come
-         to rest — it neither waits nor is it held up by any policy / storage / issuer call *)
+         to rest — it neither waits nor is it held up by any policy / issuer call or bundle read (the
+         harness may hold it at the existence check of its own maintenance: storage latency) *)
       (negb (sc_serve_current sc) || bad ||
        forallb (fun x => negb (mem_nat (fst (fst x)) arrived') ||
-                         match snd x with DoneCert _ => true | _ => false end)
+                         match snd x with DoneCert _ | AtExists => true | _ => false end)
                (filter (of_name (sc_name sc)) (s_pos o))) &&
       (* an expired certificate is not served while its renewal can still succeed, and the others
          get the new certificate: a handshake answered with the initially cached, expired certificate
@@ -181,7 +196,7 @@ Fixpoint run_ok (sc : scen) (names : list name) (bad_before : bool) (arrived wai
                          | _ => true
                          end)
                (filter (of_name (sc_name sc)) (s_pos o))) &&
-      run_ok sc names bad arrived' waited' wflag' r
+      run_ok sc names bad arrived' waited' wflag' issued' r
   end.
 
 (** at the end: everybody finished, both maps empty *)
@@ -193,7 +208,7 @@ Definition end_ok (ms : list mstep) : bool :=
   end.
 
 Definition spec_ok (sc : scen) (names : list name) (complete : bool) (ms : list mstep) : bool :=
-  run_ok sc names false [] [] [] ms && (negb complete || end_ok ms).
+  run_ok sc names false [] [] [] [] ms && (negb complete || end_ok ms).
 
 (** ** wire decoding *)
 Definition get_cls : dec cls :=
@@ -215,6 +230,7 @@ Definition get_pos : dec pos :=
    | 3%N => ret WaitLoad | 4%N => ret WaitObtain | 5%N => ret WaitRenew
    | 6%N => g <- get_nat ;; ret (DoneCert g)
    | 7%N => ret DoneEmpty | 8%N => ret DoneErr | 9%N => ret Exited
+   | 11%N => ret AtExists
    | _ => ret Running
    end).
 Definition get_mlabel : dec mlabel :=
@@ -222,6 +238,7 @@ Definition get_mlabel : dec mlabel :=
    match t with
    | 0%N => i <- get_nat ;; n <- get_nat ;; ret (MArrive i n)
    | 1%N => i <- get_nat ;; a <- get_act ;; ret (MRelease i a)
+   | 2%N => n <- get_nat ;; c <- get_cert_w ;; ret (MSetCert n c)
    | _ => fun _ => None
    end).
 Definition get_seen : dec seen :=
@@ -266,6 +283,7 @@ Definition pos_code (p : pos) : list Z :=
   | AtDecision => [0] | AtLoad => [1] | AtIssue => [2]
   | WaitLoad => [3] | WaitObtain => [4] | WaitRenew => [5]
   | DoneCert g => [6; Z.of_nat g] | DoneEmpty => [7] | DoneErr => [8] | Exited => [9] | Running => [10]
+  | AtExists => [11]
   end.
 Fixpoint explain_steps (s : state) (names : list name) (ms : list mstep) : list Z :=
   match ms with
